@@ -90,6 +90,7 @@ type callT struct {
 	Size    int64  `json:"size,omitempty"` // Truncate
 	Sub     string `json:"sub,omitempty"`  // operand is leaf + "/" + Sub (MkdirAll two levels)
 	Dest    string `json:"dest,omitempty"` // relative path of the second operand (Rename/Link)
+	Up      bool   `json:"up,omitempty"`   // operand is the directory that holds the leaf
 	Creates bool   `json:"creates,omitempty"`
 }
 
@@ -298,6 +299,17 @@ func callsN(tier string, dest string) []callT {
 	}
 }
 
+// callsNUp: RemoveAll of the directory that HOLDS the non-empty directory (depth
+// >= 2): what a refused or partly refused recursion leaves behind is judged
+// entry by entry (an entry that is gone must have been removable by the caller).
+func callsNUp(cs []callT, depth int) []callT {
+	if depth < 2 {
+		return cs
+	}
+
+	return append(cs, callT{Op: "RemoveAll", Variant: "holding-dir", Up: true, Umask: 0o022})
+}
+
 // calls on a symbolic link to the root-owned file R/tf.
 func callsL(tier string, dest string) []callT {
 	um := oct(0o022)
@@ -338,6 +350,13 @@ func callsM(tier string) []callT {
 	for _, u := range allUmasks {
 		cs = append(cs, callT{Op: "Create", Umask: u, Creates: true})
 	}
+
+	// permission is decided when the handle is opened: a handle created with a
+	// mode that grants nothing stays usable for what it was opened for
+	cs = append(cs,
+		callT{Op: "File.Truncate", Variant: "RDWR|CREATE|EXCL,0444", Flag: os.O_RDWR | os.O_CREATE | os.O_EXCL, Perm: 0o444, Size: 1, Umask: um, Creates: true},
+		callT{Op: "File.Write", Variant: "WRONLY|CREATE|EXCL,0000", Flag: os.O_WRONLY | os.O_CREATE | os.O_EXCL, Perm: 0, Umask: um, Creates: true},
+	)
 
 	for _, u := range []oct{0o022, 0o077} {
 		cs = append(cs, callT{Op: "Symlink", Umask: u, Creates: true})
@@ -424,7 +443,7 @@ func families(tier string, depth int, lv level, tag string) []*family {
 		{ID: id("F"), Depth: depth, Nodes: with("F", lv.leaf), Leaf: leaf, LeafKind: "F", Calls: callsF(tier, dest)},
 		{ID: id("M"), Depth: depth, Nodes: dirs, Leaf: leaf, LeafKind: "M", Calls: callsM(tier)},
 		{ID: id("D"), Depth: depth, Nodes: with("D", lv.leafDir), Leaf: leaf, LeafKind: "D", Calls: callsD(tier, dest)},
-		{ID: id("N"), Depth: depth, Nodes: with("N", lv.leafDir), Leaf: leaf, LeafKind: "N", Calls: callsN(tier, dest)},
+		{ID: id("N"), Depth: depth, Nodes: with("N", lv.leafDir), Leaf: leaf, LeafKind: "N", Calls: callsNUp(callsN(tier, dest), depth)},
 		{ID: id("L"), Depth: depth, Nodes: with("L", symDom), Leaf: leaf, LeafKind: "L", Calls: callsL(tier, dest)},
 		{ID: id("FF"), Depth: depth, Nodes: onto, Leaf: leaf, LeafKind: "F", Calls: []callT{
 			{Op: "Link", Variant: "samedir-onto", Dest: dest, Umask: um},
